@@ -31,7 +31,21 @@ var (
 func pick(r *rand.Rand, xs []string) string { return xs[r.Intn(len(xs))] }
 func chance(r *rand.Rand, pct int) bool     { return r.Intn(100) < pct }
 
+// fmSeen: field mappings generated for the mapping under construction; one of
+// them is repeated now and then, so that the same field mapping (one shared
+// object in the Go-built mapping) sits under different inherited defaults
+var fmSeen []mFM
+
 func genFM(r *rand.Rand) mFM {
+	if len(fmSeen) > 0 && chance(r, 30) {
+		return fmSeen[r.Intn(len(fmSeen))]
+	}
+	f := genFM1(r)
+	fmSeen = append(fmSeen, f)
+	return f
+}
+
+func genFM1(r *rand.Rand) mFM {
 	f := mFM{Type: pick(r, rTypes), Store: chance(r, 50), Index: chance(r, 70), TV: chance(r, 50),
 		InAll: chance(r, 60), DV: chance(r, 50), SFN: chance(r, 30)}
 	if chance(r, 40) {
@@ -76,7 +90,8 @@ func genDM(r *rand.Rand, depth int, top bool) *mDM {
 }
 
 func genIM(r *rand.Rand) *mIM {
-	m := &mIM{Types: []mProp{}, Def: genDM(r, 3, true), TypeField: pick(r, []string{"_type", "_type", "kind", "a"}),
+	fmSeen = nil
+	m := &mIM{Types: []mProp{}, Def: genDM(r, 3, true), TypeField: pick(r, []string{"_type", "_type", "kind", "a", ""}),
 		DefType: pick(r, []string{"_default", "T1", "T2"}), DefAnalyzer: pick(r, rAnalyzers),
 		DefDateParser: pick(r, rParsers), DefField: pick(r, []string{"_all", "a", "a.b"}),
 		Scoring: pick(r, []string{"", "tf-idf", "bm25"}), StoreDyn: chance(r, 60), IndexDyn: chance(r, 70),
@@ -139,7 +154,11 @@ func randomJudged(c *core.Ctx) error {
 	var kept []*tcase
 	for i := 0; i < n; i++ {
 		m := genIM(r)
-		d := genMap(r, 3, m.TypeField)
+		tf := m.TypeField
+		if tf == "" {
+			tf = "_type" // type detection switched off: a "_type" property is ordinary data
+		}
+		d := genMap(r, 3, tf)
 		tc := &tcase{Fam: "random", M: m, D: d, Valid: true}
 		im, err := buildMapping(m, int(c.Seed)+i)
 		if err != nil {
